@@ -1059,9 +1059,33 @@ fn check(ctx: &Ctx) -> i32 {
         }
         check_case(&rules, cfg, &bat, &qs, l);
     });
+    // the rule cube (vh::alpha): every (pattern shape, option set, exception?) cell alone and next
+    // to a same-pattern neighbour under the next option set (both land in one bucket), in the four
+    // debug x optimise configurations
+    let np = vh::alpha::CUBE_PATTERNS.len() as u64;
+    let no = vh::alpha::CUBE_OPTIONS.len() as u64;
+    ctx.bound("cube_cells", np * no * 2);
+    ctx.par_range("rule cube", np * no * 2 * 2 * 4, 8, |i, l| {
+        let p = (i % np) as usize;
+        let o = ((i / np) % no) as usize;
+        let exc = (i / np / no) % 2 == 1;
+        let with_neighbour = (i / np / no / 2) % 2 == 1;
+        let cfg = CFGS[(i / np / no / 4) as usize % 4];
+        let mut rules: Vec<RuleRef> = match vh::alpha::cube_rule(p, o, exc) {
+            Some(r) => vec![(r, Fm::Std)],
+            None => return,
+        };
+        if with_neighbour {
+            match vh::alpha::cube_rule(p, (o + 1) % no as usize, false) {
+                Some(r) if r != rules[0].0 => rules.push((r, Fm::Std)),
+                _ => return,
+            }
+        }
+        check_case(&rules, cfg, &bat, &qs, l);
+    });
     ctx.finish(
         "model_checking",
-        "every ordered list without repetition of <= k rules of an 84-rule alphabet covering every network and cosmetic rule shape x debug x optimise x list permission; serialize_raw -> deserialize into Engine::new(true), Engine::new(false) with the tags pre-enabled, a used engine holding other rules and tags, and (lists with tags) Engine::new(false) with the tags pre-enabled receiving a buffer that was taken while the producer had the complementary / the full tag set enabled; under every subset of the tags the list uses the whole battery (network requests x 4 types, CSP, url_cosmetic_resources, hidden_class_id_selectors with 3 exception sets) is put to the original and to each loader and compared field by field; a case is non-trivial when the original or the reloaded answer is not the empty answer; states = engines built or loaded, transitions = queries executed, traces_validated = (loader, query) answers compared with the original's",
+        "every ordered list without repetition of <= k rules of an 84-rule alphabet covering every network and cosmetic rule shape x debug x optimise x list permission; serialize_raw -> deserialize into Engine::new(true), Engine::new(false) with the tags pre-enabled, a used engine holding other rules and tags, and (lists with tags) Engine::new(false) with the tags pre-enabled receiving a buffer that was taken while the producer had the complementary / the full tag set enabled; plus every cell of the rule cube (pattern shapes x option sets x exception) alone and with a same-pattern neighbour in 4 configurations; under every subset of the tags the list uses the whole battery (network requests x 4 types, CSP, url_cosmetic_resources, hidden_class_id_selectors with 3 exception sets) is put to the original and to each loader and compared field by field; a case is non-trivial when the original or the reloaded answer is not the empty answer; states = engines built or loaded, transitions = queries executed, traces_validated = (loader, query) answers compared with the original's",
         &[
             "resources are loaded identically on both sides (they are not part of the serialized format)",
             "documented sets are compared as sets; the injected script as a multiset of try-blocks plus a multiset of dependency lines",
